@@ -32,7 +32,7 @@ def p_grid(rng, nrandom):
     ps.add(-0.0)
     out = sorted(ps)
     out += [rng.random() for _ in range(nrandom)]
-    out += [5e-324, 1e-300, 1 - 2 ** -53]
+    out += [5e-324, 1e-300, 2.0 ** -60, 1e-17, 1 - 2 ** -53]
     return out
 
 
@@ -118,7 +118,8 @@ def run(tier, seed):
     try:
         for variant, frac in variants:
             binary = build(variant)
-            pp = ps if frac >= 1 else ps[::3]
+            # the dev build sees a third of the grid, but always the extreme p values (range-checked casts exist only there)
+            pp = ps if frac >= 1 else sorted(set(ps[::3]) | {0.0, 1.0, 5e-324, 1e-300, 2.0 ** -60, 1e-17, 1 - 2 ** -53})
             # shard by p so that all permutations of a multiset (for one p) land in one shard
             nsh = common.NPROC * (2 if tier == 'thorough' else 1)
             descs = []
